@@ -1172,6 +1172,11 @@ func boolPhiTest(b *ssa.BasicBlock) (*ssa.Phi, bool) {
 			if x.Op != token.NOT {
 				return nil, false
 			}
+		case *ssa.Store:
+			// a merged result spilled into a local (its fields are read later)
+			if _, ok := x.Addr.(*ssa.Alloc); !ok {
+				return nil, false
+			}
 		default:
 			return nil, false
 		}
